@@ -52,6 +52,27 @@ package codec
 //@   ensures m == nil ==> result == o
 //@   ensures m != nil && o == nil ==> result == m
 
+// A change event that fails to decode yields no values at all (it is discarded as a whole).
+//@ func DecodeChangeEvent
+//@   assigns nothing
+//@   ensures[C15] result1 != nil ==> result0 == nil
+//@   safety[C15]
+//@ func DecodeLegacyChangeEvent
+//@   assigns nothing
+//@   ensures[C15] result1 != nil ==> result0 == nil
+//@   safety[C15]
+// An add event is accepted only with a proper value; a failed decode yields nothing.
+//@ func DecodeAddEvent
+//@   assigns nothing
+//@   ensures[C15] result1 != nil ==> result0 == nil
+//@   ensures[C15] result1 == nil ==> result0 != nil && result0.Value.Type >= ValueTypePrimitive
+//@   safety[C15]
+//@ func DecodeRemoveEvent
+//@   assigns nothing
+//@   ensures[C15] result1 != nil ==> result0 == nil
+//@   ensures[C15] result1 == nil ==> result0 != nil
+//@   safety[C15]
+
 // The decoded access result is never modified.
 //@ immutable AccessResult.Get, AccessResult.Call
 
